@@ -29,4 +29,6 @@ def obligations(tier):
         Ob('E.corrupt', 'E', 'restore (twice, cache on) after corrupting one object: raises or restores the newest version exactly',
            '2 modes x 16 object slots x 6 kinds x <=40 positions = 7680 vectors (3 kinds use 8 positions, delete 1)',
            [F['rs'], F['dc'], F['dl']], module=H, func='e_corrupt', timeout=1200, shards=16),
+        Ob('E.big', 'E', 'one file of ~1100 / ~2500 chunk references (more than any plausible batching window): the chunk object behind the first / 8th / 1002nd / middle / last-1003rd / last reference damaged (flip, truncate, swap, delete, replay, flip + swap of two others): restore raises or is exact',
+           '2 modes x 2 sizes x 6 positions x 6 damages x concurrency {2,5} = 288', ['replicat.repository:Repository.restore', 'replicat.repository:Repository._download_chunk'], module=H, func='e_big_corrupt', timeout=1200, shards=8),
     ]
